@@ -106,13 +106,13 @@ def run_timers(c, P):
     ws = L.WebSocket('ws://example.com/')
     close_at = [None]
     app_close = P.get('app_close', True)
-    budget = [1]
+    budget = [P.get('app_closes', 1)]     # (a repeated close() must not re-arm the close timeout)
 
     def app(idx, ev, ws_, gen):
         w.log[-1] = w.log[-1] + (w.clock,)           # stamp the event entry with the virtual time
         if app_close and budget[0] and ev.name in ('ready', 'poll', 'text', 'pong'):
             if c.choose(2, 'appclose'):
-                budget[0] = 0
+                budget[0] -= 1
                 close_at[0] = (len(w.log), w.clock)
                 w.log.append(('app-close', w.clock))
                 ws_.close(1000, b'x')
